@@ -6,8 +6,12 @@ From SC Require Import Lib.Prelude Lib.Int Lib.Host Model.Math Proofs.Math Model
    universe = addresses 0 .. n-1 (0 = the vault);
    o_ab / o_sb  : asset / share balance() of every address of the universe
    o_sup, o_ta  : total_supply(), total_assets() of the vault
-   o_aal / o_sal: allowance(owner, spender) of the asset / share token, one row per owner *)
-Record obs := { o_ab : list Z; o_sb : list Z; o_sup : Z; o_ta : Z; o_aal : list (list Z); o_sal : list (list Z) }.
+   o_aal / o_sal: allowance(owner, spender) of the asset / share token, one row per owner
+   o_dec        : decimals() of the vault (= asset decimals + the STORED decimals offset)
+   o_asset      : 1 if query_asset() returns the asset token's address, 0 if another address
+   A getter that traps is recorded as -1 (no balance, allowance, total or decimals is ever negative). *)
+Record obs := { o_ab : list Z; o_sb : list Z; o_sup : Z; o_ta : Z; o_aal : list (list Z); o_sal : list (list Z);
+                o_dec : Z; o_asset : Z }.
 
 Record header := {
   h_cfg : cfg;          (* constructor arguments and constants *)
@@ -54,18 +58,21 @@ Definition eqb_out (a b : outcome) : bool :=
   end.
 Definition eqb_obs (a b : obs) : bool :=
   eqb_lz (o_ab a) (o_ab b) && eqb_lz (o_sb a) (o_sb b) && (o_sup a =? o_sup b) && (o_ta a =? o_ta b)
-  && eqb_llz (o_aal a) (o_aal b) && eqb_llz (o_sal a) (o_sal b).
+  && eqb_llz (o_aal a) (o_aal b) && eqb_llz (o_sal a) (o_sal b)
+  && (o_dec a =? o_dec b) && (o_asset a =? o_asset b).
 Definition eqb_pre (a b : res Z * res Z) : bool := eqb_rz (fst a) (fst b) && eqb_rz (snd a) (snd b).
 
 (* ---------- observation of a model state ---------- *)
 Definition univ (n : N) : list addr := map N.of_nat (seq 0 (N.to_nat n)).
-Definition observe (n : N) (s : state) : obs :=
+Definition observe (c : cfg) (n : N) (s : state) : obs :=
   {| o_ab := map (bal (asset s)) (univ n);
      o_sb := map (bal (share s)) (univ n);
      o_sup := total_supply s;
      o_ta := total_assets s;
      o_aal := map (fun o => map (allowance (now s) (asset s) o) (univ n)) (univ n);
-     o_sal := map (fun o => map (allowance (now s) (share s) o) (univ n)) (univ n) |}.
+     o_sal := map (fun o => map (allowance (now s) (share s) o) (univ n)) (univ n);
+     o_dec := c_adec c + c_off c;
+     o_asset := 1 |}.
 
 (* ---------- diff: replay through the model ---------- *)
 Fixpoint replay (c : cfg) (n : N) (s : state) (its : list item) (i : N) : N :=
@@ -74,7 +81,7 @@ Fixpoint replay (c : cfg) (n : N) (s : state) (its : list item) (i : N) : N :=
   | (cl, pre, out, ob) :: r =>
       let pm := pre_values c s cl in
       let so := step c s cl in
-      if eqb_pre pm pre && eqb_out (snd so) out && eqb_obs (observe n (fst so)) ob
+      if eqb_pre pm pre && eqb_out (snd so) out && eqb_obs (observe c n (fst so)) ob
       then replay c n (fst so) r (N.succ i)
       else N.succ i
   end.
@@ -85,7 +92,7 @@ Definition diff (t : trace) : N :=
   else match h_ctor h with
        | Fail => match snd t with [] => 0%N | _ => 1%N end
        | Ok _ =>
-           if eqb_obs (observe (h_n h) (init (h_now h))) (h_obs0 h)
+           if eqb_obs (observe (h_cfg h) (h_n h) (init (h_now h))) (h_obs0 h)
            then replay (h_cfg h) (h_n h) (init (h_now h)) (snd t) 0%N
            else 1%N
        end.
@@ -238,8 +245,10 @@ Definition mon_call (c : cfg) (n : N) (prev : obs) (it : item) : bool :=
 (* clauses common to every call *)
 Definition mon_step (c : cfg) (n : N) (prev : obs) (it : item) : bool :=
   let '(cl, pre, out, ob) := it in
+  (* the vault still knows its asset and its decimals offset (stored once, by the constructor) *)
+  (o_dec ob =? c_adec c + c_off c) && (o_asset ob =? 1)
   (* total_assets() is the asset token's balance of the vault *)
-  (o_ta ob =? fn1 (o_ab ob) V)
+  && (o_ta ob =? fn1 (o_ab ob) V)
   (* a failing call leaves no trace; a failing preview means a failing operation *)
   && (if is_fail out then eqb_obs ob prev else true)
   && (match cl with
@@ -251,11 +260,61 @@ Definition mon_step (c : cfg) (n : N) (prev : obs) (it : item) : bool :=
   && rate_le (10 ^ c_off c) (o_ta prev) (o_sup prev) (o_ta ob) (o_sup ob)
   && mon_call c n prev it.
 
-Fixpoint mon_from (c : cfg) (n : N) (prev : obs) (its : list item) (i : N) : N :=
+(* ---------- allowances survive until their live_until, whatever time passes ----------
+   The monitor keeps, from the call inputs only, the current ledger (start + the successful Advance calls) and
+   the live_until_ledger passed to the last successful approve of every (owner, spender) pair. *)
+Record mstate := { m_obs : obs; m_now : Z; m_alu : addr -> addr -> Z; m_slu : addr -> addr -> Z }.
+Definition upd2z (g : addr -> addr -> Z) (o s : addr) (v : Z) : addr -> addr -> Z :=
+  fun a b => if N.eqb a o && N.eqb b s then v else g a b.
+(* allowances after [k] more ledgers: those whose live_until has passed read 0, all others are untouched *)
+Definition aged (lu : addr -> addr -> Z) (now' : Z) (al : addr -> addr -> Z) : addr -> addr -> Z :=
+  fun o s => if lu o s <? now' then 0 else al o s.
+
+Definition mon_allow (n : N) (st : mstate) (it : item) : bool :=
+  let '(cl, pre, out, ob) := it in
+  let prev := m_obs st in
+  match out with
+  | Fail => true                       (* nothing changed: checked by mon_step *)
+  | Ok _ =>
+      match cl with
+      | Advance k =>
+          (0 <=? k)
+          && eqb_llz (o_aal ob) (tab2 n (aged (m_alu st) (m_now st + k) (fn2 (o_aal prev))))
+          && eqb_llz (o_sal ob) (tab2 n (aged (m_slu st) (m_now st + k) (fn2 (o_sal prev))))
+      | AApprove o sp a _ au =>
+          auth_root au o && eqb_llz (o_aal ob) (tab2 n (upd2z (fn2 (o_aal prev)) o sp a))
+      | SApprove o sp a _ au =>
+          auth_root au o && eqb_llz (o_sal ob) (tab2 n (upd2z (fn2 (o_sal prev)) o sp a))
+      | ATransfer _ _ _ _ | AMint _ _ => eqb_llz (o_aal ob) (o_aal prev)
+      | STransfer _ _ _ _ => eqb_llz (o_sal ob) (o_sal prev)
+      | STransferFrom sp f _ a _ =>
+          eqb_llz (o_sal ob) (tab2 n (upd2z (fn2 (o_sal prev)) f sp (fn2 (o_sal prev) f sp - a)))
+      | _ => true
+      end
+  end.
+
+Definition mnext (st : mstate) (it : item) : mstate :=
+  let '(cl, pre, out, ob) := it in
+  match out with
+  | Fail => {| m_obs := ob; m_now := m_now st; m_alu := m_alu st; m_slu := m_slu st |}
+  | Ok _ =>
+      match cl with
+      | Advance k => {| m_obs := ob; m_now := m_now st + k; m_alu := m_alu st; m_slu := m_slu st |}
+      | AApprove o sp _ l _ => {| m_obs := ob; m_now := m_now st; m_alu := upd2z (m_alu st) o sp l; m_slu := m_slu st |}
+      | SApprove o sp _ l _ => {| m_obs := ob; m_now := m_now st; m_alu := m_alu st; m_slu := upd2z (m_slu st) o sp l |}
+      | _ => {| m_obs := ob; m_now := m_now st; m_alu := m_alu st; m_slu := m_slu st |}
+      end
+  end.
+
+Fixpoint mon_from (c : cfg) (n : N) (st : mstate) (its : list item) (i : N) : N :=
   match its with
   | [] => 0%N
-  | it :: r => if mon_step c n prev it then mon_from c n (snd it) r (N.succ i) else N.succ i
+  | it :: r =>
+      if mon_step c n (m_obs st) it && mon_allow n st it then mon_from c n (mnext st it) r (N.succ i) else N.succ i
   end.
+
+Definition minit (h : header) : mstate :=
+  {| m_obs := h_obs0 h; m_now := h_now h; m_alu := fun _ _ => 0; m_slu := fun _ _ => 0 |}.
 
 (* the constructor accepts exactly the offsets 0..=MAX_DECIMALS_OFFSET (when decimals do not overflow),
    and a fresh vault is empty *)
@@ -269,7 +328,7 @@ Definition mon_header (h : header) : bool :=
 
 Definition monitor (t : trace) : N :=
   let h := fst t in
-  if mon_header h then mon_from (h_cfg h) (h_n h) (h_obs0 h) (snd t) 0%N else 1%N.
+  if mon_header h then mon_from (h_cfg h) (h_n h) (minit h) (snd t) 0%N else 1%N.
 
 Definition check (t : trace) : verdict := (diff t, monitor t, 0%N).
 Definition check_all (ts : list trace) : list verdict := map check ts.
@@ -280,11 +339,11 @@ Fixpoint model_items (c : cfg) (n : N) (s : state) (cs : list call) : list item 
   | [] => []
   | cl :: r =>
       let so := step c s cl in
-      (cl, pre_values c s cl, snd so, observe n (fst so)) :: model_items c n (fst so) r
+      (cl, pre_values c s cl, snd so, observe c n (fst so)) :: model_items c n (fst so) r
   end.
 Definition observe_model (c : cfg) (n : N) (now0 : Z) (cs : list call) : trace :=
   match construct c with
-  | Fail => ({| h_cfg := c; h_n := n; h_now := now0; h_ctor := Fail; h_obs0 := observe n (init now0) |}, [])
-  | Ok d => ({| h_cfg := c; h_n := n; h_now := now0; h_ctor := Ok d; h_obs0 := observe n (init now0) |},
+  | Fail => ({| h_cfg := c; h_n := n; h_now := now0; h_ctor := Fail; h_obs0 := observe c n (init now0) |}, [])
+  | Ok d => ({| h_cfg := c; h_n := n; h_now := now0; h_ctor := Ok d; h_obs0 := observe c n (init now0) |},
              model_items c n (init now0) cs)
   end.
